@@ -2,7 +2,6 @@ package fzf
 
 import (
 	"fmt"
-	"regexp"
 	"strings"
 
 	"github.com/junegunn/fzf/src/algo"
@@ -64,12 +63,6 @@ type Pattern struct {
 	procFun       map[termType]algo.Algo
 	cache         *ChunkCache
 	denylist      map[int32]struct{}
-}
-
-var _splitRegex *regexp.Regexp
-
-func init() {
-	_splitRegex = regexp.MustCompile(" +")
 }
 
 // BuildPattern builds Pattern object from the given arguments
@@ -160,15 +153,35 @@ func BuildPattern(cache *ChunkCache, patternCache map[string]*Pattern, fuzzy boo
 	return ptr
 }
 
+// splitTerms splits the query at the runs of unescaped spaces.
+// An escaped space ("\\ ") becomes a literal space of the token.
+func splitTerms(str string) []string {
+	tokens := []string{}
+	var token strings.Builder
+	for i := 0; i < len(str); i++ {
+		if str[i] == '\\' && i+1 < len(str) && str[i+1] == ' ' {
+			token.WriteByte(' ')
+			i++
+		} else if str[i] == ' ' {
+			tokens = append(tokens, token.String())
+			token.Reset()
+			for i+1 < len(str) && str[i+1] == ' ' {
+				i++
+			}
+		} else {
+			token.WriteByte(str[i])
+		}
+	}
+	return append(tokens, token.String())
+}
+
 func parseTerms(fuzzy bool, caseMode Case, normalize bool, str string) []termSet {
-	str = strings.ReplaceAll(str, "\\ ", "\t")
-	tokens := _splitRegex.Split(str, -1)
 	sets := []termSet{}
 	set := termSet{}
 	switchSet := false
 	afterBar := false
-	for _, token := range tokens {
-		typ, inv, text := termFuzzy, false, strings.ReplaceAll(token, "\t", " ")
+	for _, text := range splitTerms(str) {
+		typ, inv := termFuzzy, false
 		lowerText := strings.ToLower(text)
 		caseSensitive := caseMode == CaseRespect ||
 			caseMode == CaseSmart && text != lowerText
